@@ -1,7 +1,7 @@
 CONSTANTS
- GAME = "coll"
+ GAME = "rich"
  Collide = FALSE
- PriorTables = TRUE
+ PriorTables = FALSE
  Nodes <- GNodes
  Root = "R"
  MoveIds <- GMoveIds
@@ -12,7 +12,7 @@ CONSTANTS
  Key <- GKey
  History = {}
  Workers = 2
- MaxIter = 2
+ MaxIter = 4
  MinPar = 1
  Orders <- GOrdersAll
  K = 1000
@@ -21,11 +21,13 @@ CONSTANTS
  CapOrder <- GCap
  SlotOf <- GSlot
  TagCheck = TRUE
- TinyTable = FALSE
+ TinyTable = TRUE
  StopAllowed = FALSE
 INIT MCInit
 NEXT Next
 CHECK_DEADLOCK FALSE
 INVARIANT LegalLine
-INVARIANT ReportBeforeEnd
+INVARIANT MateSound
+INVARIANT MateFound
 INVARIANT NoPanic
+INVARIANT ReportBeforeEnd
